@@ -97,6 +97,17 @@ def hex_blocks(rng: random.Random, sizes: List[int], w: int, big_divs=((10, 2),)
     add("cmp", "hex.cmp {v0}, {v1}, {lt}, {eq}, {gt}", 2, 1, branches=("lt", "eq", "gt"), name="hex.cmp(5)")
     add("if", "hex.if {v0}, {l0}, {l1}", 1, 1, branches=("l0", "l1"), name="hex.if(3)")
     add("if_flags", "hex.if_flags {v0}, {c}, {l0}, {l1}", 1, 1, c=rng.randrange(1 << 16), branches=("l0", "l1"))
+    add("inc1h", "hex.inc1 {v0}, {c0}, {c1}", 1, 1, branches=("c0", "c1"))
+    add("dec1h", "hex.dec1 {v0}, {c0}, {c1}", 1, 1, branches=("c0", "c1"))
+    add("double_xor", "hex.double_xor {v0}, {v1}, {v2}", 3, 1)
+    for n in sizes[:3]:
+        add("add_count_bits", "hex.add_count_bits {n}, {v0}, {v1}", 2, n)
+    # the carry flags themselves (c: 0 = the add carry, 1 = the sub borrow; m: clear / clear with branch / not / set)
+    for c, ns in ((0, "add"), (1, "sub")):
+        B.append(Block("carry_op", f"hex.{ns}.clear_carry", [], 1, 0, 0, c, (), f"hex.{ns}.clear_carry(0)"))
+        B.append(Block("carry_op", f"hex.{ns}.clear_carry {{c0}}, {{c1}}", [], 1, 1, 0, c, ("c0", "c1"), f"hex.{ns}.clear_carry(2)"))
+        B.append(Block("carry_op", f"hex.{ns}.not_carry", [], 1, 2, 0, c, (), f"hex.{ns}.not_carry"))
+        B.append(Block("carry_op", f"hex.{ns}.set_carry", [], 1, 3, 0, c, (), f"hex.{ns}.set_carry"))
     return B
 
 
